@@ -270,7 +270,10 @@ def size_of(v):
 
 
 # ---- space 3: argument-count law -------------------------------------------------
-VEC = {'row': (1, 3), 'col': (2, 1), 'mat': (2, 3), 'one': (1, 1), 'err': 'S', 'sc': 'S'}
+VEC = {'row': (1, 3), 'col': (2, 1), 'mat': (2, 3), 'one': (1, 1), 'err': 'S', 'sc': 'S', 'eq': (1, 4), 'eq0': (2, 2)}
+# arrays whose elements are equal as Python values but of different Excel kinds (1, TRUE, 1, "1" / 0, FALSE, "", 0):
+# a value-keyed shortcut anywhere on the evaluation path would merge them
+EQ = {'eq': [[N(1), B(True), N(1), T('1')]], 'eq0': [[N(0), B(False)], [T(''), N(0)]]}
 
 
 def count_cases(tier):
@@ -293,6 +296,8 @@ def vec(kind, vk, k=0):
     """The non-scalar argument: value kind vk, shape by `kind`."""
     if kind == 'err':
         return ERR
+    if kind in EQ:
+        return [list(r) for r in EQ[kind]]
     return value(vk, k, VEC[kind])
 
 
